@@ -29,7 +29,7 @@ Proof. exact type_safety. Qed.
 Print Assumptions C01_reference_total.
 
 (* ---- instruction selection of the native back end, over the table regenerated from the emitter on every run ---- *)
-From FV Require Import Models.Qbe Models.ISel Proofs.ISelThm gen.Gen_QbeSel.
+From FV Require Import Models.Qbe Models.ISel Proofs.ISelSound Proofs.ISelThm gen.Gen_QbeSel.
 Import ListNotations.
 
 (* for every (operator, type) row and ALL canonical register contents on which the reference is defined, the emitted
